@@ -18,12 +18,14 @@ import io
 import json
 import os
 import random
+import re
 import signal
 import threading
 import time
 import traceback
 import uuid
 
+_KEY_PATTERN = re.compile(r"pythonhashseed-\d+[+-]\d+|[0-9a-f]{64}")
 FAULT_NONE, FAULT_KILL, FAULT_ERROR = 0, 1, 2
 # seams at which an injected OSError stands for a failing system call (besides write chunks)
 ERROR_SEAMS = ("open", "os.open", "replace", "rename", "close", "link", "unlink", "remove")
@@ -236,6 +238,7 @@ class Sim:
         self.probes: dict[str, int] = {}
         self.current: Actor | None = None
         self.killed_at = None
+        self.key_aliases: dict[str, str] = {}
         self.mode = knobs.get("mode", "thread")
         self.results: list = []
         self.remote = None  # (reader, writer) inside an actor process
@@ -291,6 +294,17 @@ class Sim:
         if isinstance(p, bytes):
             p = p.decode()
         return os.path.relpath(p, self.root)
+
+    def alias(self, text: str) -> str:
+        """Cache keys may depend on object addresses (hash() of a functools.partial attribute under a
+        fixed hash seed): the event log names them by order of first appearance instead."""
+        def repl(match):
+            key = match.group(0)
+            if key not in self.key_aliases:
+                self.key_aliases[key] = f"key{len(self.key_aliases)}"
+            return self.key_aliases[key]
+
+        return _KEY_PATTERN.sub(repl, text)
 
     def probe(self, name: str, n: int = 1) -> None:
         if self.remote is not None:
@@ -426,7 +440,7 @@ class Sim:
     def _kill(self, actor: Actor) -> None:
         actor.state = "killed"
         self.kills_left -= 1
-        self.killed_at = {"step": self.steps, "seam": actor.pending[0], "detail": actor.pending[1]}
+        self.killed_at = {"step": self.steps, "seam": actor.pending[0], "detail": self.alias(actor.pending[1])}
         self.fired["kill"] += 1
         site = actor.pending[0] + ("+w" if actor.writing else "")
         self.kill_sites[site] = self.kill_sites.get(site, 0) + 1
@@ -477,7 +491,7 @@ class Sim:
             if self.current is not None and actor is not self.current and self.current in runnable:
                 self.fired["switch"] += 1
             fault = self._decide_fault(actor)
-            self.events.append((actor.idx, actor.pending[0], actor.pending[1], fault))
+            self.events.append((actor.idx, actor.pending[0], self.alias(actor.pending[1]), fault))
             self.steps += 1
             if self.steps > self.max_steps:
                 raise StepCap(f"more than {self.max_steps} scheduler steps")
